@@ -7,8 +7,10 @@ import common
 from common import Case
 
 TITLE = 'Admission seats one conforming client per seat and turns the others away'
-LEAN_TARGETS = ['BridgeVerif.Props.C20']
-REQUIRED = ['accept_iff_ok', 'error_is_first_failing_test', 'reject_leaves_table_unchanged', 'loop_continues_until_full',
+LEAN_TARGETS = ['BridgeVerif.Props.C20', 'BridgeVerif.Translated.Messages']
+AUDIT_PROPS = ['C20', 'Translated.Messages']
+REQUIRED = ['Translated.Messages.connection_line_read',
+            'accept_iff_ok', 'error_is_first_failing_test', 'reject_leaves_table_unchanged', 'loop_continues_until_full',
             'one_client_per_seat', 'partners_share_team', 'teams_message_correct', 'verdicts_are_a_prefix', 'order_matters',
             'accept_loop_is_the_fold']
 SHARDS = {'quick': 4, 'thorough': 16}
